@@ -81,7 +81,7 @@ func vfGating(checkGet, checkCall bool, checkRevoke ...bool) {
 	seq := zzvf.ParamOr("seq", 0) == 1
 	if zzvf.Param("pretoken") == 1 {
 		// the connection already has a token
-		w.mq.event("conn.cidA", "token", []byte(`{"token":{"user":"old"}}`))
+		w.mq.event("conn.cidA", "token", []byte(`{"token":{"user":"old"},"tid":"tid1"}`))
 		w.settle()
 		g.token = `{"user":"old"}`
 		g.hadToken = true
@@ -124,7 +124,7 @@ func vfGating(checkGet, checkCall bool, checkRevoke ...bool) {
 						g.valid[n] = false
 					}
 				}
-				w.mq.event("conn.cidA", "token", []byte(`{"token":{"user":"new"}}`))
+				w.mq.event("conn.cidA", "token", []byte(`{"token":{"user":"new"},"tid":"tid1"}`))
 				g.token = `{"user":"new"}`
 				g.hadToken = true
 			case 1:
